@@ -219,11 +219,13 @@ def _history(F, ch, ctx, st):
         model.header = None
 
     nops = 1 + ch.draw(40 if ctx.tier == "thorough" else 24)
+    ch.mark_count()
     weights = [ch.pick([0, 2, 6]), ch.pick([0, 1, 3]), ch.pick([1, 3]), ch.pick([0, 1, 3]), ch.pick([0, 1, 2]), ch.pick([0, 1])]
     pending = 0          # records written since the last dump-causing event (approximation for probes only)
     only_zero = zero
     last = "create"
     for _ in range(nops):
+        ch.mark()
         op = ch.weighted([max(1, weights[0])] + weights[1:])
         if op == 0:     # write good record
             d = new_record(large=ch.chance(15))
